@@ -515,6 +515,20 @@ def mediaStep (O : Oracle) (ns : List (Cps × Cps)) (nested : List Tok → Optio
     let r := upto .default (some t) rest
     (mediaStmtEffect O ns nested acc t r.1, r.2)
 
+/-- the rules of the block of an `@media` rule, from the tokens after its `{` (`cssmediarule.py:141-250`) -/
+def mediaBlock (O : Oracle) (ns : List (Cps × Cps)) (nested : List Tok → Option Rule)
+    (rest2 : List Tok) : List Rule :=
+  let r3 := upto .mediaend none rest2                    -- :141-143
+  -- no "}" (:156-157) or trailing content (:158-161): logged, `cssRules` stays empty
+  match (sepEnd r3.1).2 with
+  | none => []
+  | some last =>
+    if (last.typ ≠ .eof ∧ last.val ≠ vRBrace) ∨ r3.2 ≠ [] then []
+    else
+      -- EOF hack (:145-154): the EOF goes back to the rules' tokens
+      let inner := if last.typ = .eof then r3.1 else (sepEnd r3.1).1
+      parseLoop (mediaStep O ns nested) [] inner
+
 /-- `rule.cssText = tokens` for a `CSSMediaRule`.  `fuel` bounds the nesting depth of `@media` inside
 `@media` (each level eats at least its at-keyword; `ts.length + 1` is enough).  A media rule is always
 `wellformed` (`self.media.wellformed` of the constructor default `all` when the parse failed), so the
@@ -540,17 +554,7 @@ def mediaRule (O : Oracle) (ns : List (Cps × Cps)) : Nat → List Tok → Optio
           let name : Option Tok := if end1.typ = .string then some end1 else none
           if (end2.map (·.val)) ≠ some vLBrace then some (.media none [])   -- :133-138
           else
-            let r3 := upto .mediaend none r2.2             -- :141-143
-            -- no "}" (:156-157) or trailing content (:158-161): logged, `cssRules` stays empty
-            let rules : List Rule :=
-              match (sepEnd r3.1).2 with
-              | none => []
-              | some last =>
-                if (last.typ ≠ .eof ∧ last.val ≠ vRBrace) ∨ r3.2 ≠ [] then []
-                else
-                  -- EOF hack (:145-154): the EOF goes back to the rules' tokens
-                  let inner := if last.typ = .eof then r3.1 else (sepEnd r3.1).1
-                  parseLoop (mediaStep O ns (fun l => mediaRule O ns fuel l)) [] inner
+            let rules := mediaBlock O ns (fun l => mediaRule O ns fuel l) r2.2
             if ok1 ∧ nameOk then some (.media (some (mediatoks, name)) rules)
             else some (.media none [])
 
